@@ -90,7 +90,7 @@ def settings_extra(s):
 
 
 def ws_run(rng, ws, has_comments, has_eol, at_end=False):
-    chars = {'default': [' ', '\t', '\n', '\r\n', '  '], r'[ \t]+': [' ', '\t', '  '], r'[ ]+': [' ', '  ']}[ws]
+    chars = {'default': [' ', '\t', '\n', '\r\n', '  ', '\xa0', '\u2028', '\x0c', '\x1f', '\x85'], r'[ \t]+': [' ', '\t', '  '], r'[ ]+': [' ', '  ']}[ws]
     parts = [rng.choice(chars)]
     for _ in range(rng.randint(0, 2)):
         r = rng.random()
@@ -249,7 +249,7 @@ def shard_namechars(col, shard_i, n):
             cfgs.append((nc, ng, rng.random() < 0.5))
         texts = []
         for t in toks:
-            for tail in ['', 'x', '-', '$', '_', '1', ' x', '-x', '$x']:
+            for tail in ['', 'x', '-', '$', '_', '1', ' x', '-x', '$x', '\u00b2', '\u2460', '\u2167', '\u00bd', '\u00e9', '\u0663', '\u3007']:
                 texts.append(t + tail)
         rng.shuffle(texts)
         for (nc, ng, as_directive) in cfgs:
@@ -396,6 +396,31 @@ def layering_api(col):
                           f"parse-time {name}='' does not override the @@{name} directive",
                           {'oracle': 'layering through the API', 'grammar': gd, 'text': text, 'setting': kw,
                            'accepted_with_directive': with_directive, 'accepted_with_empty_setting': switched_off, 'expected': expect})
+    # documented placement / settings, probed directly (constructs outside the generator's IR)
+    import re as _re
+    probes = [
+        # (name, grammar, parse kwargs, text, expected acceptance)
+        ('based-rule-lowercase-skips', "start = '=' ext $ ;\nNum = /\\d+/ ;\next < Num = /x/ ;", {}, '= 12x', True),
+        ('based-rule-lowercase-skips', "start = '=' ext $ ;\nNum = /\\d+/ ;\next < Num = /x/ ;", {}, '=12x', True),
+        ('based-rule-uppercase-no-skip', "start = '=' Ext $ ;\nnum = /\\d+/ ;\nExt < num = /x/ ;", {}, '= 12x', False),
+        ('compiled-comments-keep-flags', "start = 'a' 'b' $ ;", {'comments': _re.compile(r'/\*.*?\*/', _re.DOTALL)}, 'a /* x\n y */ b', True),
+        ('compiled-eol-comments-keep-flags', "start = 'a' 'b' $ ;", {'eol_comments': _re.compile(r'rem[^\n]*', _re.IGNORECASE)}, 'a REM x\n b', True),
+        ('compiled-whitespace-keeps-flags', "start = 'a' 'b' $ ;", {'whitespace': _re.compile(r' [ \t]+ ', _re.VERBOSE)}, 'a \t b', True),
+        ('string-eol-comments-case-sensitive', "start = 'a' 'b' $ ;", {'eol_comments': r'rem[^\n]*'}, 'a REM x\n b', False),
+        ('void-skips-whitespace', "start = 'a' () /b/ $ ;", {}, 'a b', True),
+        ('pattern-does-not-skip', "start = 'a' /b/ $ ;", {}, 'a b', False),
+        ('eof-skips-whitespace', "start = 'a' $ ;", {}, 'a \n ', True),
+    ]
+    for name, gp, kw, text, want in probes:
+        col.case(['api-probe', name, text], nontrivial=True)
+        try:
+            got = accepts(lambda: tatsu.compile(gp).parse(text, **kw))
+        except Exception as e:  # noqa
+            got = f'raises {type(e).__name__}'
+        if got != want:
+            col.violation(f'api:probe:{name}', f'documented whitespace / settings behaviour: {name}: accepted={got}, expected {want}',
+                          {'oracle': 'documented placement and settings (probe)', 'grammar': gp, 'settings': {k: repr(v) for k, v in kw.items()},
+                           'text': text, 'accepted': got, 'expected': want})
     # directives must survive tatsu.parse (defaults of a complete config must not override them)
     for d, probe in {'parseinfo': lambda r: getattr(r, 'parseinfo', None) is not None}.items():
         gd = f"@@{d} :: True\nstart = a:'x' ;"
